@@ -104,9 +104,9 @@ def uci_text_rule(ctx, facts, rid, thorough=False):
 # ------------------------------------------------------------------ SAN
 
 def san_text_rule(ctx, facts, rid, thorough=False):
-    r = ctx.rule(rid, "san::Move text: every value the formatter can be given (castling, pawn moves and captures with promotions on the last "
-                      "ranks, piece moves with every combination of origin hints and the capture mark, each check mark) is written in "
-                      "standard algebraic notation and read back as itself")
+    r = ctx.rule(rid, "san::Move text: every value the formatter can be given (castling, pawn moves, full and abbreviated pawn captures with "
+                      "promotions, piece moves with every combination of origin hints and the capture mark, coordinate-notation values, each "
+                      "check mark) is written in standard algebraic notation and read back as itself")
     S = "owlchess::moves::san::"
     D = S + "Data"
     pc = _discrs(facts, "owlchess_base::types::Piece")
@@ -119,7 +119,7 @@ def san_text_rule(ctx, facts, rid, thorough=False):
     pl = {pc[k]: k[0] if k != "Knight" else "N" for k in pc}
     prl = {pp[k]: k[0] if k != "Knight" else "N" for k in pp}
     marks = {None: ""}
-    for k, sym in (("Single", "+"), ("Checkmate", "#")):
+    for k, sym in (("Single", "+"), ("Double", "++"), ("Checkmate", "#")):
         if k in cm:
             marks[cm[k]] = sym
 
@@ -133,6 +133,11 @@ def san_text_rule(ctx, facts, rid, thorough=False):
             t = sq_name(f_[0]) + (("=" + prl[f_[1][2][0]]) if f_[1][1] == "Some" else "")
         elif kind == "PawnCapture":
             t = "abcdefgh"[f_[0]] + "x" + sq_name(f_[1]) + (("=" + prl[f_[2][2][0]]) if f_[2][1] == "Some" else "")
+        elif kind == "PawnCaptureShort":
+            t = "abcdefgh"[f_[0]] + "abcdefgh"[f_[1]] + (("=" + prl[f_[2][2][0]]) if f_[2][1] == "Some" else "")
+        elif kind == "Uci":
+            u = f_[0]
+            t = "0000" if u[1] == "Null" else sq_name(u[2][0]) + sq_name(u[2][1]) + (prl[u[2][2][2][0]].lower() if u[2][2][1] == "Some" else "")
         elif kind == "Simple":
             t = pl[f_[0]] + ("abcdefgh"[f_[1][2][0]] if f_[1][1] == "Some" else "") + ("87654321"[f_[2][2][0]] if f_[2][1] == "Some" else "") \
                 + ("x" if f_[3] else "") + sq_name(f_[4])
@@ -157,6 +162,19 @@ def san_text_rule(ctx, facts, rid, thorough=False):
             for sf in ((d_ & 7) - 1, (d_ & 7) + 1):
                 if 0 <= sf <= 7:
                     vals.append(mv(("agg", "PawnCapture", (sf, d_, p_), D)))
+    U = "owlchess::moves::uci::Move"
+    for sf in range(8):
+        for df in (sf - 1, sf + 1):
+            if 0 <= df <= 7:
+                for p_ in proms:
+                    vals.append(mv(("agg", "PawnCaptureShort", (sf, df, p_), D)))
+    vals.append(mv(("agg", "Uci", (("agg", "Null", (), U),), D)))
+    for s_, d_ in ((52, 36), (8, 0), (12, 5), (62, 45), (0, 63)):
+        for p_ in proms:
+            vals.append(mv(("agg", "Uci", (("agg", "Move", (s_, d_, p_), U),), D)))
+    for chk in marks:
+        vals.append(mv(("agg", "PawnCaptureShort", (4, 3, OPT_NONE), D), chk))
+        vals.append(mv(("agg", "Uci", (("agg", "Move", (52, 36, OPT_NONE), U),), D), chk))
     for chk in marks:
         vals.append(mv(("agg", "PawnMove", (36, OPT_NONE), D), chk))
         vals.append(mv(("agg", "PawnCapture", (3, 4, some(sorted(prl)[-1])), D), chk))
